@@ -199,6 +199,28 @@ ROOT_SDL = [
 ]
 
 
+# string payloads the printer has to encode (astral characters, quotes, backslashes, controls, non-ASCII) at every place a string can stand, and type / directive
+# names that differ by case only, referenced in an order that differs from their definition order (a sort that does not separate them leaves the tie to history)
+TEXTS_SDL = r'''
+"plain 😀 description with \"quotes\" and \\ backslash"
+type Query {
+  a(s: String = "x😀\"q\"\\b\u0007é", t: [String] = ["🚀", ""]): Item @deprecated(reason: "gone 😀 \"q\" \\ b")
+  b: item
+  box: Box
+}
+type item { v: Int }
+"""
+block 😀 description
+  indented "quotes" and \\ backslash
+"""
+type Item { v: Int @deprecated(reason: "é😀") }
+type Box { i: item, I: Item, e: E }
+enum E { "member 😀" A @deprecated(reason: "") b B }
+directive @Tag(n: String = "😀") on FIELD
+directive @tag(n: String = "\"") on FIELD
+'''
+
+
 def roots_code_schema():
     from py_gql.schema import Field, Int, ObjectType, Schema
     return Schema(query_type=ObjectType("Subscription", [Field("a", Int)]), mutation_type=ObjectType("Query", [Field("b", Int)]))
@@ -206,7 +228,8 @@ def roots_code_schema():
 
 def schema_sources():
     out = [("base", lambda: __import__("py_gql").build_schema(schemas.BASE_SDL)), ("code", code_schema),
-           ("directives", lambda: __import__("py_gql").build_schema(DIRECTIVE_SDL))]
+           ("directives", lambda: __import__("py_gql").build_schema(DIRECTIVE_SDL)),
+           ("texts", lambda: __import__("py_gql").build_schema(TEXTS_SDL))]
     # root types whose names are the conventional names of OTHER operations (the schema block is then not redundant), and the redundant cases
     for i, sdl in enumerate(ROOT_SDL):
         out.append(("roots%d" % i, (lambda s: (lambda: __import__("py_gql").build_schema(s)))(sdl)))
